@@ -516,7 +516,32 @@ def choose_length(rng, ops, Lpre, style):
 
 
 STYLES = ["flat", "chain", "general", "general", "explicit", "explicit", "mixed", "incremental", "rejected", "collide",
-          "twosel", "twosel"]
+          "twosel", "twosel", "bigval"]
+
+
+def gen_bigval(rng):
+    """automatically sized fields holding values around 2^48 .. 2^64 in bit fields that fit exactly (a floating-point
+    length formula is one bit too wide from 2^48 - 1 upwards)"""
+    v = rng.choice([(1 << 48) - 1, (1 << 48) - 2, 1 << 48, (1 << 53) - 1, 1 << 53, (1 << 53) + 1, (1 << 63) - 1, 1 << 63,
+                    (1 << 64) - 1, (1 << 64) - 2, (1 << rng.randint(49, 70)) - rng.randint(1, 2)])
+    k = rng.choice([0, 0, 1, 3])
+    ops = [["add", 0, 0, None, None, [1], "list"]]
+    if k:
+        ops.append(["add", 0, 1, k, None, [], "list"])
+    scoped = rng.random() < 0.4
+    if scoped:
+        ops += [["add", 0, 2, 1, None, [], "list"], ["call", 0, [[2, 1]]], ["add", 1, 3, None, None, [2], "gen"],
+                ["call", 1, [[3, v]]]]
+    ops.append(["call", 0, [[0, v]]])
+    if rng.random() < 0.5:
+        ops.append(["call", 0, [[0, v >> 7]]])
+    ops.append(["assign", 0])
+    n = 3 + (1 if scoped else 0) + (1 if ops[-2][2][0][1] != v else 0)
+    ops += [["loc", 0, 0], ["call", 0, [[0, v]] + ([[1, 0]] if k else []) + ([[2, 0]] if scoped else [])]]
+    ops += [["value", n - 1 + (1 if scoped else 0), None, None], ["mask", n - 1 + (1 if scoped else 0), None, None],
+            ["mask", 0, 1, None]]
+    L = v.bit_length() + k + (1 + v.bit_length() if scoped else 0)
+    return dict(L=L + rng.choice([0, 0, 0, 1]), ops=ops, style="bigval")
 
 
 def gen_twosel(rng):
@@ -558,6 +583,8 @@ def gen_twosel(rng):
 
 def gen_case(rng, idx):
     style = STYLES[idx % len(STYLES)]
+    if style == "bigval":
+        return gen_bigval(rng)
     if style == "twosel":
         ops = gen_twosel(rng)
         return dict(L=choose_length(rng, ops, 0, "rejected"), ops=ops, style=style)
@@ -1027,8 +1054,8 @@ def run(chk, args):
                     "Python object identity of _Field objects is mirrored by indices into the model's store"]
     chk.assumptions += [
         "identifiers and tags are strings, lengths/positions/values are Python ints",
-        "values given to automatically sized fields are below 2^47: there int(log(v,2))+1 equals the bit length "
-        "(measured on every run; above, the float formula may be one bit wider, never narrower)",
+        "the automatic length is int(max_value).bit_length() (re-extracted from the source on every run and measured "
+        "against the code for values up to 2^64)",
         "a history ends at the first exception that is not ValueError/UnavailableFieldError/UnknownTagError "
         "(_Tree.add_field dies with RecursionError when the adding instance holds values of fields of two different "
         "child scopes; the tree is then left with ()-keyed children)"]
@@ -1064,23 +1091,20 @@ def run(chk, args):
     # ---------------------------------------------------------------- auto length formula
     vals = [v for v in autolen_values(chk.rng, 2000 if chk.tier == "quick" else 100000) if v >= 1]
     lens = chk.impl("impl_c08.py", [dict(values=vals)])[0]["lens"]
-    wider = 0
-    exact = True
+    differ = 0
     for v, l in zip(vals, lens):
         if l < v.bit_length():
             chk.fail_input("autolen-too-narrow", "a field whose largest value is %d gets %d bits" % (v, l),
                            dict(value=v, length=l))
-        elif l > v.bit_length():
-            wider += 1
-            if v < (1 << 47):
-                exact = False
-                chk.oblige("autolen:model-exact-below-2^47", False,
+        elif l != v.bit_length():
+            differ += 1
+            if differ <= 3:
+                chk.oblige("autolen:length == int.bit_length (the model's bitlen)", False,
                            "value %d: code %d bits, bit length %d" % (v, l, v.bit_length()))
     chk.count("autolen:values", len(lens))
-    chk.count("autolen:wider-than-bit-length(all >= 2^48-2)", wider)
-    if exact:
-        chk.oblige("autolen:int(log(v,2))+1 never narrower than the bit length; equal below 2^47 (%d values)"
-                   % len(lens), True)
+    if not differ:
+        chk.oblige("autolen:the automatic length equals int.bit_length for %d values (+-2 around every power of two "
+                   "up to 2^64, random)" % len(lens), True)
     chk.coverage["rule"] = (
         "random histories of add_field / __call__ / assign_fields / get_value / get_mask(tag|field) / get_tags / "
         "get_location_and_length / attribute / enabled_fields / potential_fields on one BitField and its derived "
